@@ -836,3 +836,112 @@ def cmp_call(fn, a):
             return fn(a["pipeline"], sc, a["inputs"], a["internal_shapes"])
     finally:
         R.RunInfo, R._construct_internal_shapes, R.map_shapes, R.equal_dicts = saved
+
+
+# ---- pipefunc/map/_run.py::_maybe_parallel_map (C03: every index of a mapped function is processed exactly once) --------
+from .misc import DOutObj2, PipeFuncOut, executor_for_func, _empty_name  # noqa: E402
+RUN = "pipefunc/map/_run.py"
+
+
+class _IndexFn:
+    """The per-index worker of the bounded rung: remembers what it was called with."""
+
+    def __init__(self, fid, wrapped=None):
+        self.fid, self.wrapped = fid, wrapped
+
+    def __call__(self, i):
+        return ("processed", self.fid, i) if self.wrapped is None else ("with-status", self.wrapped(i))
+
+    def __eq__(self, other):
+        return isinstance(other, _IndexFn) and (self.fid, self.wrapped) == (other.fid, other.wrapped)
+
+    __hash__ = None  # type: ignore[assignment]
+
+
+IndexFnV = TRec("IndexFn", {"fid": TObj}, to_py=lambda d: _IndexFn(d["fid"]), from_py=lambda o: {"fid": id(o)})
+IndexFnV.identity = "fid"
+SInt = TSeq(TInt)
+STok = TSeq(TObj)
+
+mpm_call = Contract(f"{RUN}::IndexFn.__call__", params={"self": IndexFnV, "i": TInt}, returns=TObj, trusted=True, pure=True,
+                    note="processing one index (the user function runs in there): an opaque function of (worker, index)")
+mpm_submit = Contract(f"{RUN}::_submit", params={"func": IndexFnV, "executor": TObj, "status": TOpt(TObj),
+                                                 "progress": TOpt(TObj), "i": TInt}, returns=TObj, trusted=True, pure=True,
+                      note="one submission of worker(i) to the executor: the future is an opaque function of the arguments")
+mpm_slurm = Contract("pipefunc/map/_adaptive_scheduler_slurm_executor.py::maybe_update_slurm_executor_map",
+                     params={"func": PipeFuncOut, "ex": TObj, "executor": DOutObj2, "process_index": IndexFnV, "seq": SInt},
+                     returns=TObj, trusted=True, pure=True, note="the executor to use (a per-function SlurmExecutor or ex itself)")
+mpm_wrap = Contract(f"{RUN}::_wrap_with_status_update", params={"func": IndexFnV, "status": TObj, "progress": TObj},
+                    returns=IndexFnV, trusted=True, pure=True, note="the worker with progress bookkeeping around it")
+
+
+def _mpm_ex(S, a):
+    """(an executor applies, the executor that _executor_for_func picks)."""
+    d = S.some(a.executor)
+    own = S.has(d, a.func.output_name)
+    return S.not_(S.is_none(a.executor)), S.ite(own, lambda: d[a.func.output_name], lambda: d[_empty_name(S)])
+
+
+def _mpm_no_entry(S, a):
+    return S.and_(S.not_(S.is_none(a.executor)), lambda: S.and_(
+        S.not_(S.has(S.some(a.executor), a.func.output_name)), S.not_(S.has(S.some(a.executor), _empty_name(S)))))
+
+
+def _mpm_ensures(S, a, r, post):
+    if S.symbolic:
+        par, ex = _mpm_ex(S, a)
+        ex2 = lambda: S.uf("fn:maybe_update_slurm_executor_map", TObj, a.func, ex, S.some(a.executor), a.process_index, a.indices)  # noqa: E731
+        worker = lambda: S.ite(S.is_none(a.status), lambda: a.process_index, lambda: S.uf(  # noqa: E731
+            "fn:_wrap_with_status_update", IndexFnV, a.process_index, S.some(a.status), S.some(a.progress)))
+        return {
+            "one result per index, in the order of the indices": S.len(r) == S.len(a.indices),
+            "with an executor: worker(i) is submitted once for every index i": S.implies(par, lambda: S.forall(
+                0, S.len(a.indices), lambda j: S.eq(r[j], S.uf("fn:_submit", TObj, a.process_index, ex2(), a.status,
+                                                              a.progress, a.indices[j])))),
+            "without: worker(i) is run here, once for every index i": S.implies(S.not_(par), lambda: S.forall(
+                0, S.len(a.indices), lambda j: S.eq(r[j], S.uf("fn:IndexFn.__call__", TObj, worker(), a.indices[j])))),
+        }
+    if a.executor is not None:
+        ex = a.executor.get(a.func.output_name, a.executor.get(""))
+        want = [("submitted", a.process_index.fid, ("slurm?", ex), a.status, a.progress, i) for i in a.indices]
+    elif a.status is None:
+        want = [("processed", a.process_index.fid, i) for i in a.indices]
+    else:
+        want = [("with-status", ("processed", a.process_index.fid, i)) for i in a.indices]
+    return {"one result per index, in order, from the executor that applies": list(r) == want}
+
+
+maybe_parallel_map = Contract(
+    f"{RUN}::_maybe_parallel_map",
+    params={"func": PipeFuncOut, "process_index": IndexFnV, "indices": SInt, "executor": TOpt(DOutObj2),
+            "status": TOpt(TObj), "progress": TOpt(TObj)}, returns=STok,
+    raises=[("ValueError", _mpm_no_entry),
+            ("AssertionError", lambda S, a: S.and_(S.is_none(a.executor), lambda: S.and_(
+                S.not_(S.is_none(a.status)), S.is_none(a.progress))))],
+    ensures=_mpm_ensures,
+)
+PARALLEL_MAP = [executor_for_func, mpm_call, mpm_submit, mpm_slurm, mpm_wrap, maybe_parallel_map]
+
+
+def mpm_gen(rng, tier):
+    from types import SimpleNamespace as NS
+    for q in range(300 if tier == "quick" else 3000):
+        out = rng.choice(("a", "b", ("a", "b")))
+        r = rng.random()
+        executor = None if r < 0.4 else {k: f"ex_{k}_{q}" for k in ("a", ("a", "b"), "") if rng.random() < 0.5}
+        status = None if rng.random() < 0.5 else f"status{q}"
+        progress = None if (status is None and rng.random() < 0.5) or rng.random() < 0.1 else f"progress{q}"
+        yield {"func": NS(output_name=out), "process_index": _IndexFn(q), "indices": [rng.randrange(6) for _ in range(rng.randint(0, 4))],
+               "executor": executor, "status": status, "progress": progress}
+
+
+def mpm_call_real(fn, a):
+    import pipefunc.map._run as R
+    saved = (R._submit, R.maybe_update_slurm_executor_map, R._wrap_with_status_update)
+    R._submit = lambda pi, ex, status, progress, i: ("submitted", pi.fid, ex, status, progress, i)
+    R.maybe_update_slurm_executor_map = lambda func, ex, executor, pi, seq: ("slurm?", ex)
+    R._wrap_with_status_update = lambda pi, status, progress: _IndexFn(pi.fid, wrapped=pi)
+    try:
+        return fn(a["func"], a["process_index"], a["indices"], a["executor"], a["status"], a["progress"])
+    finally:
+        R._submit, R.maybe_update_slurm_executor_map, R._wrap_with_status_update = saved
